@@ -20,3 +20,6 @@ open GlueVerif.C12
 #print axioms saver_loader_versions_match
 #print axioms save_uses_newest_table
 #print axioms registry_keys_unique
+#print axioms load_v_save_v_data
+#print axioms load_v_save_v
+#print axioms newest_is_lossless
